@@ -235,6 +235,20 @@ def exits_of(ev: Evaluator, fi: FuncInfo):
 
 
 # --------------------------------------------------------------------------- element-type (dtype) closure, shared by the numeric properties
+def result_positions(ev, res) -> Dict[str, int]:
+    """which local name ends up at which position of a returned tuple (by the values the names hold when the function returns, so an intermediate
+    name for the tuple does not matter)"""
+    out: Dict[str, int] = {}
+    if not isinstance(res, Tup):
+        return out
+    env = ev.top_state.env if getattr(ev, 'top_state', None) is not None else {}
+    for name, v in env.items():
+        for j, item in enumerate(res.items):
+            if v is item or (isinstance(v, Val) and not isinstance(v, (Const, Tup)) and veq(v, item)):
+                out.setdefault(name, j)
+    return out
+
+
 TOLERANT = ('numpy.isclose', 'numpy.allclose', 'math.isclose', 'numpy.testing.assert_allclose')
 
 
